@@ -4,9 +4,82 @@ import FordModel.Show
 import FordModel.AttrStmt
 import FordModel.ProcPrefix
 import FordModel.DeclLine
+import FordModel.SortComp
+import FordModel.CharSel
+import FordModel.ProcLine
 import FordModel.Generated.C18
 namespace Ford
 open Proto Html Show
+
+/-! request of `c18.sort`: the value of the option `sort`, the number of collections, then per collection its
+    attribute name, the number of items and 16 fields per item (name; has permission, permission; obj; is variable,
+    vartype, kind, strlen, proto[0]; has proctype, proctype; has retvar, its vartype, kind, strlen, proto[0]).
+    Reply: per collection its name, the number of items and the names in the order after `sort_components`. -/
+namespace Sort18
+open Ford.SortComp
+
+def optS (flag v : Str) : Option Str := if flag == ['1'] then some v else none
+
+def parseItem : List Str → Option (Item × List Str)
+  | name :: pf :: pv :: obj :: vf :: vt :: vk :: vl :: vp :: tf :: tv :: rf :: rt :: rk :: rl :: rp :: rest =>
+    some ({ name := name, permission := optS pf pv, obj := obj,
+            var := if vf == ['1'] then some ⟨vt, vk, vl, vp⟩ else none,
+            proctype := optS tf tv,
+            retvar := if rf == ['1'] then some ⟨rt, rk, rl, rp⟩ else none }, rest)
+  | _ => none
+
+def parseItems : Nat → List Str → Option (List Item × List Str)
+  | 0, fs => some ([], fs)
+  | n + 1, fs =>
+    match parseItem fs with
+    | some (it, r) =>
+      match parseItems n r with
+      | some (its, r') => some (it :: its, r')
+      | none => none
+    | none => none
+
+def parseColls : Nat → List Str → Option Entity
+  | 0, _ => some []
+  | n + 1, name :: cnt :: fs =>
+    match parseItems (natOf cnt) fs with
+    | some (its, r) => (parseColls n r).map ((name, its) :: ·)
+    | none => none
+  | _ + 1, _ => none
+
+def run (opt ncoll : Str) (fs : List Str) : List Str :=
+  match optOf opt, parseColls (natOf ncoll) fs with
+  | none, _ => ["keyerror".toList]
+  | _, none => ["bad-request".toList]
+  | some o, some e =>
+    "ok".toList :: ((sortComponents Generated.C18.sortedCollections o e).map fun p =>
+      p.1 :: Proto.showNat p.2.length :: p.2.map (·.name)).flatten
+
+end Sort18
+
+/-! request of `c18.procline`: proto, module level, permission, counted attribs, proctype, name, counted argument
+    names, has result, result name, bindC.  Reply: the markup of `proc_line` (variant of the RESULT test as regenerated). -/
+namespace ProcLine18
+open Ford.ProcLine
+
+def takeN : Nat → List Str → Option (List Str × List Str)
+  | 0, fs => some ([], fs)
+  | n + 1, f :: fs => (takeN n fs).map fun p => (f :: p.1, p.2)
+  | _ + 1, [] => none
+
+def run (fs : List Str) : List Str :=
+  match fs with
+  | proto :: ml :: perm :: na :: rest =>
+    match takeN (natOf na) rest with
+    | some (attribs, proctype :: name :: nargs :: rest2) =>
+      match takeN (natOf nargs) rest2 with
+      | some (args, [rf, rn, bind]) =>
+        ["ok".toList, procLine Generated.C18.procLineResultCI (proto == ['1'])
+          ⟨ml == ['1'], perm, attribs, proctype, name, args, if rf == ['1'] then some rn else none, bind⟩]
+      | _ => ["bad-request".toList]
+    | _ => ["bad-request".toList]
+  | _ => ["bad-request".toList]
+
+end ProcLine18
 
 /-! request of `c18.cleanup`: kind, then counted lists (count first): argument names; the result
     (`-` or `N<name>`); interface procedures; items; attr_dict entries (key, counted attributes);
@@ -258,6 +331,17 @@ def dispatchC18 : List Str → Option (List Str)
       match args with
       | kind :: rest => some (Cleanup18.run kind rest)
       | _ => some ["bad-request".toList]
+    else if cmd == "c18.sort".toList then
+      match args with
+      | opt :: ncoll :: rest => some (Sort18.run opt ncoll rest)
+      | _ => some ["bad-request".toList]
+    else if cmd == "c18.procline".toList then
+      some (ProcLine18.run args)
+    else if cmd == "c18.charsel".toList then
+      -- the parameters of a character selector (blanks removed, split at commas) -> length, kind
+      match CharSel.charSel Generated.C18.charSelRules args none none with
+      | .ok (l, k) => some ["ok".toList, ProcHead18.showOpt l, ProcHead18.showOpt k]
+      | .error _ => some ["err".toList]
     else none
   | [] => none
 
